@@ -58,6 +58,15 @@ MANIFEST = dict(
 TRUSTED_EXTRA = ["harness/djv_wrap.cpp (--wrap=inflate region check and call counter)"]
 
 
+# model regenerated from the C++ sources + its equality with the hand model (see props/_implgen.py)
+from props import _implgen
+LEAN_MODULES = LEAN_MODULES + _implgen.LEAN_MODULES
+THEOREMS = THEOREMS + _implgen.THEOREMS_FOR[ID]
+ASSUMPTIONS = ASSUMPTIONS + _implgen.ASSUMPTIONS
+TRUSTED_EXTRA = TRUSTED_EXTRA + _implgen.TRUSTED_EXTRA
+TRANSLATORS = dict(globals().get("TRANSLATORS", {}), **_implgen.TRANSLATORS)
+
+
 def run_both(lines, watchdog=10):
     scripts = runner.shard(lines, NCPU)
     hres = runner.run_harness(scripts, stateless=True, watchdog=watchdog)
@@ -242,3 +251,6 @@ def tie(ctx):
         "divergences": divergences[:20],
         "violations": violations[:8],
     }
+
+
+tie = _implgen.wrap_tie(tie)   # + regenerated model vs real library (translator validation)
